@@ -79,7 +79,10 @@ pub mod t {
 /// Trait-object schemas (`Schema::Trait`, ABI definitions exchanged between peers) carry the trait
 /// name as `name[+Sync][+Send]`; the bytes are untrusted. Structure bytes concrete (R5), the
 /// suffix character symbolic.
-pub mod tr {
+/// NOT PART OF ANY TIER: `str::split('+')` (CharSearcher / memchr over a symbolic byte) did not finish in
+/// 900 s; the `panic!("Unexpected trait name ...")` in `AbiTraitDefinition::deserialize` (observation F3,
+/// DESIGN §8) therefore stays an observation from reading, not a decided finding.
+pub mod x_tr {
     use super::*;
     use savefile::AbiTraitDefinition;
     macro_rules! trait_name_harness {
